@@ -384,7 +384,7 @@ NPFUN = {'cos', 'sin', 'tan', 'abs', 'absolute', 'exp', 'sqrt', 'angle', 'conj',
          'radians', 'deg2rad', 'degrees', 'rad2deg', 'real', 'imag', 'sum', 'array', 'vectorize', 'ones', 'zeros', 'arange', 'isnan',
          'log10', 'phase', 'any', 'all', 'size', 'logical_not', 'sign', 'arctan2', 'hypot', 'asarray', 'float64', 'complex128'}
 SYN = {'conjugate': 'conj', 'deg2rad': 'radians', 'rad2deg': 'degrees', 'phase': 'angle', 'absolute': 'abs', 'asarray': 'array',
-       'fabs': 'abs', 'float64': 'float', 'complex128': 'float', 'identity': 'eye'}
+       'fabs': 'abs', 'float64': 'float', 'complex128': 'float', 'identity': 'eye', 'rint': 'round', 'around': 'round', 'round_': 'round', 'remainder': 'mod'}
 _NP_BINOPS = {'multiply': ast.Mult, 'add': ast.Add, 'subtract': ast.Sub, 'divide': ast.Div, 'true_divide': ast.Div, 'matmul': ast.MatMult, 'dot': ast.MatMult}
 REAL_HEADS = {'abs', 'real', 'imag', 'angle', 'floor', 'ceil', 'round', 'mod', 'num'}
 MAXDEPTH = 7
@@ -2709,8 +2709,68 @@ def compare_terms(code, spec, total=False):
             if has_opaque(l1) or has_opaque(l2) or any(has_opaque_key(k) for k in both):
                 verdict = None if verdict is not False else False
                 continue
+            if structural_heads(tkey(l1)) != structural_heads(tkey(l2)):
+                # the two sides are built with different uninterpreted constructs (another library function, a comprehension against an index
+                # selection, a helper object ...): unequal normal forms do not show unequal values -- not decided
+                verdict = None if verdict is not False else False
+                continue
             return False
     return verdict
+
+
+_STRUCTURAL_OPQ = {'list', 'tuple', 'set', 'sorted', 'iter', 'loop', 'mutated', 'dispatch', 'dispatchcall', 'partial', 'product', 'build', 'hcat', 'vcat', 'rows',
+                   'concat', 'zip', 'enumerate', 'map', 'filter', 'reversed', 'range', 'item', 'keys', 'values', 'items', 'dictmethod', 'listmethod', 'strmethod',
+                   'attr', 'bitop', 'fstr', 'next', 'any', 'all', 'min', 'max', 'Σ', 'strcat', 'fmt', 'return-if', 'st'}
+
+
+def structural_heads(k, out=None):
+    """sorted multiset of the UNINTERPRETED constructs a key is built with: comprehensions, library functions the evaluator has no normal form
+    for, external calls, calls of unknown callables, structural operators.  Interpreted parts (polynomial arithmetic, attribute / item paths,
+    comparisons, conditionals, records, the elementary functions with normal forms) do not count."""
+    top = out is None
+    if top: out = []
+    if isinstance(k, tuple) and k:
+        h = k[0]
+        if h == 'poly':
+            for mc in k[1:]:
+                if isinstance(mc, tuple) and len(mc) == 2 and isinstance(mc[0], tuple):
+                    for ae in mc[0]:
+                        if isinstance(ae, tuple) and len(ae) == 2 and isinstance(ae[0], tuple): structural_heads(ae[0], out)
+            return sorted(out) if top else out
+        if h == 'rec' and len(k) == 3 and isinstance(k[2], tuple):
+            for fv in k[2]:
+                if isinstance(fv, tuple) and len(fv) == 2: structural_heads(fv[1], out)
+            return sorted(out) if top else out
+        if h == 'dict' and len(k) == 2 and isinstance(k[1], tuple):
+            for fv in k[1]:
+                if isinstance(fv, tuple) and len(fv) == 2:
+                    structural_heads(fv[0], out); structural_heads(fv[1], out)
+            return sorted(out) if top else out
+        if h == 'call' and len(k) == 4:
+            if isinstance(k[1], tuple) and k[1][:1] == ('ext',): out.append('call:' + str(k[1][1]))
+            elif isinstance(k[1], str): out.append('call:?')
+            else: structural_heads(k[1], out)
+            for a_ in k[2]: structural_heads(a_, out)
+            for fv in k[3]:
+                if isinstance(fv, tuple) and len(fv) == 2: structural_heads(fv[1], out)
+            return sorted(out) if top else out
+        if h == 'comp': out.append('comp:' + str(k[1]))
+        elif h == 'opq' and len(k) > 1 and isinstance(k[1], str):
+            if k[1].startswith('np.') or k[1] in _STRUCTURAL_OPQ: out.append('opq:' + k[1])
+        elif h == 'call' and len(k) == 4 and isinstance(k[1], tuple) and k[1][:1] == ('ext',): out.append('call:' + str(k[1][1]))
+        elif h == 'call' and len(k) == 4 and isinstance(k[1], str): out.append('call:?')
+        elif isinstance(h, str) and h not in _INTERPRETED_HEADS and len(k) >= 2 and h.isidentifier() and isinstance(k[1], tuple):
+            out.append('fn:' + h)
+        for x in k[1:]: structural_heads(x, out)
+    return sorted(out) if top else out
+
+
+_INTERPRETED_HEADS = {'poly', 'cond', 'opq', 'rec', 'tuple', 'list', 'dict', 'set', 'call', '.', '[]', 'β', 'idx', 'keyof', 'valof', 'slice', 'T', 'abs', 'real', 'imag',
+                      'angle', 'floor', 'ceil', 'round', 'mod', 'exp', 'cos', 'sin', 'sqrt', 'conj', 'int', 'num', 'len', 'matmul', 'inv', 'carried', 'sentinel', 'ref',
+                      'closure', 'obj', 'kw', 'comp', 'cmp', 'and', 'or', 'not', 'in', 'is', 'arange', 'ndigits', 'decimals',
+                      # elementary functions known to be different functions (no normal form, but a different name is a different value)
+                      'fmod', 'trunc', 'sign', 'tan', 'arctan', 'arctan2', 'arcsin', 'arccos', 'log', 'log10', 'log2', 'hypot', 'square', 'reciprocal',
+                      'degrees', 'radians', 'isclose', 'isnan', 'isfinite'}
 
 
 def _eta(v):
